@@ -268,7 +268,7 @@ def _setup():
 
 def TF_validate_faults(profile_i: int, fix: bool, diff_only: bool, compact: bool, grammar_hint: bool, debug: bool, parse_outcome: int, builtin: bool, load_outcome: int, n1: int, n2: int, emit_raises: bool, compile_raises: bool, zones: bool, input_mode: int) -> int:
     """
-    pre: 0 <= profile_i <= 6 and 0 <= parse_outcome <= 3 and 0 <= load_outcome <= 3 and 0 <= n1 <= 2 and 0 <= n2 <= 2 and 0 <= input_mode <= 2
+    pre: profile_i == PFIX and 0 <= parse_outcome <= 3 and 0 <= load_outcome <= 3 and 0 <= n1 <= 1 and 0 <= n2 <= 1 and 0 <= input_mode <= 2
     post: _ != 0
     """
     # whatever its collaborators do (incl. exception types the tool does not expect: RuntimeError from the reader,
@@ -368,7 +368,11 @@ def obligations(tier):
         f.__annotations__ = dict(T_tools.__annotations__)
         obs.append(xh_ob(PROP, f"T.tools-return-json-envelopes[{tname}]", f, timeout=3000, bound="17 contents (holographic patterns inside lists / inline maps, both content models with every value kind, holographic + literal zone, empty, tab, unclosed list, stray bracket, bad envelope, inline fence, unterminated string, single-colon assignment, bad section, 50 lines, NUL/combining/astral characters, unterminated frontmatter, CONTRACT with bad entries) x 5 formats x 2 modes/profiles x flags on/off x 2 schema arguments, real collaborators (solver-indexed pool: every combination is one concrete run of the real tool)", functions=["mcp.eject.EjectTool.execute", "mcp.validate.ValidateTool.execute", "mcp.write.WriteTool.execute", "mcp.compile_grammar.CompileGrammarTool.execute"]))
     tstubs = ["reader, loader, Validator, repair, emitter, GBNFCompiler replaced by stubs whose outcomes (return / raise, incl. unexpected exception types) are symbolic"]
-    obs.append(xh_ob(PROP, "TF.validate-tool-never-raises-under-collaborator-faults", TF_validate_faults, timeout=1500, bound="7 profile spellings x 5 flags x 3 input modes x reader outcome (ok/LexerError/ParserError/RuntimeError) x schema outcomes (none/fields/no fields/OSError) x 0..2 errors x emitter ValueError x compiler KeyError x zones", functions=["mcp.validate.ValidateTool.execute"], stubs=tstubs))
+    for pi in range(7):
+        f = types.FunctionType(TF_validate_faults.__code__, TF_validate_faults.__globals__, "TF_validate_faults", None, TF_validate_faults.__closure__)
+        f.__doc__ = TF_validate_faults.__doc__.replace("PFIX", str(pi))
+        f.__annotations__ = dict(TF_validate_faults.__annotations__)
+        obs.append(xh_ob(PROP, f"TF.validate-tool-never-raises-under-collaborator-faults[profile#{pi}]", f, timeout=900, bound=f"profile spelling #{pi} of 7 x 5 flags x 3 input modes x reader outcome (ok/LexerError/ParserError/RuntimeError) x schema outcomes (none/fields/no fields/OSError) x 0..1 errors x emitter ValueError x compiler KeyError x zones", functions=["mcp.validate.ValidateTool.execute"], stubs=tstubs))
     obs.append(xh_ob(PROP, "TF.write-tool-never-raises-under-collaborator-faults", TF_write_faults, timeout=2400, bound="5 schema arguments x flags x tokenizer/reader/loader/emitter/compiler/hermetic failures x 4 argument modes (content / none / content+changes / changes only); corrections_only", functions=["mcp.write.WriteTool.execute"], stubs=tstubs))
     obs.append(xh_ob(PROP, "X.lexer-total-on-1-char-strings", X_lexer_total, timeout=900, setup=_setup, stubs=["NFC fragment stub"], bound="all strings of length <= 1 (any character)", functions=["lexer.tokenize", "_normalize_with_fence_detection", "_match_unicode_identifier"]))
     if th:
